@@ -12,29 +12,37 @@ IsEvent(n) == l <= Len(Rec) /\ Rec[l].ev = n /\ l' = l + 1
 
 TInit == Init /\ l = 1
 TReset == IsEvent("Reset") /\ appended' = 0 /\ committed' = 0 /\ pending' = {} /\ running' = {} /\ started' = <<>> /\ ended' = {}
+          /\ marked' = {} /\ restarts' = 0
 \* entries are committed in log order, each once
 TCommit == /\ IsEvent("commit") /\ E.index = committed + 1
            /\ committed' = E.index /\ appended' = E.index /\ pending' = pending \cup {E.index}
-           /\ UNCHANGED <<running, started, ended>>
+           /\ UNCHANGED <<running, started, ended, marked, restarts>>
 \* C31: an execution starts for the OLDEST pending entry, and only when no other execution is running
 TStart == /\ IsEvent("start") /\ E.index \in pending
           /\ \A j \in pending : E.index <= j
           /\ running = {}
           /\ pending' = pending \ {E.index} /\ running' = {E.index} /\ started' = Append(started, E.index)
-          /\ UNCHANGED <<appended, committed, ended>>
+          /\ UNCHANGED <<appended, committed, ended, marked, restarts>>
 TEndEv == /\ IsEvent("end") /\ E.index \in running
-          /\ running' = running \ {E.index} /\ ended' = ended \cup {E.index}
-          /\ UNCHANGED <<appended, committed, pending, started>>
+          /\ running' = running \ {E.index} /\ ended' = ended \cup {E.index} /\ marked' = marked \cup {E.index}
+          /\ UNCHANGED <<appended, committed, pending, started, restarts>>
+\* the driver stopped the server after every request was answered and started it again on the same data: nothing was
+\* running; the entries not marked as executed are pending again (none, when every execution that ended was marked) -
+\* a start event for an entry that already ended is then rejected by TStart (executed twice)
+TRestart == /\ IsEvent("restart") /\ running = {}
+            /\ restarts' = restarts + 1 /\ pending' = pending \cup ((1..committed) \ marked)
+            /\ UNCHANGED <<appended, committed, running, started, ended, marked>>
 \* the driver's final observation: every committed entry was executed, none is left running
 TDone == /\ IsEvent("done") /\ pending = {} /\ running = {} /\ Cardinality(ended) = committed /\ E.requests_ok <= committed
          /\ UNCHANGED vars
-TNext == TReset \/ TCommit \/ TStart \/ TEndEv \/ TDone
+TNext == TReset \/ TCommit \/ TStart \/ TEndEv \/ TDone \/ TRestart
 RECURSIVE NextReset(_)
 NextReset(i) == IF i > Len(Rec) \/ Rec[i].ev = "Reset" THEN i ELSE NextReset(i + 1)
 TSkip == /\ l <= Len(Rec) /\ ~ENABLED TNext
          /\ PrintT(<<"RUN_REJECTED", l>>)
          /\ l' = NextReset(l + 1)
          /\ appended' = 0 /\ committed' = 0 /\ pending' = {} /\ running' = {} /\ started' = <<>> /\ ended' = {}
+         /\ marked' = {} /\ restarts' = 0
 TEnd == l = Len(Rec) + 1 /\ PrintT(<<"TRACE_END", Len(Rec)>>) /\ l' = l + 1 /\ UNCHANGED vars
 TraceSpec == TInit /\ [][TNext \/ TSkip \/ TEnd]_tvars
 =============================================================================
